@@ -3,6 +3,7 @@ From Coq Require Import Arith NArith List Lia Bool.
 From RTA.Model Require Import Base Arrival Wcet Demand Eval WellFormed.
 From RTA.Spec Require Import Sched Events TaskModel.
 From RTA.Proofs Require Import FifoSound Workload FifoEndToEnd.
+From RTA.Proofs Require Import GeneralCosts.
 
 (* End to end: if the analysis (public entry point, either build profile) returns Ok R for a task set, then
    for EVERY finite job set whose releases are admissible for the tasks' arrival models (Spec/Events.v) and
@@ -32,3 +33,22 @@ Proof.
   split; [exact ex_fifo_ok|]. split; [exact ex_tasks_ok|]. split; [|exact ex_tight].
   apply ex_completes. cbn. lia.
 Qed.
+
+(* ---- GENERAL JOB-COST MODELS (Proofs/GeneralCosts.v).  gtask = arrival bound * cost model (Scalar | Multiframe | cost curve |
+        extrapolating cost curve); respects_cost_models: every job costs at least 1 and, in some release-ordered enumeration of a
+        task's jobs, every block of m consecutive jobs costs at most cost_of_jobs(m) -- what JobCostModel::cost_of_jobs promises
+        (for trace-derived curves C14 proves it; for Multiframe it is an obligation on the frame vector, see
+        multiframe_first_frames_refuted).  The scalar theorems above are corollaries (scalar_respects_cost_models). ---- *)
+Theorem C03_fifo_rta_sound_general_costs : forall dbg (tasks : list gtask) limit R jobs sched,
+  Forall gtask_ok tasks ->
+  e_fifo dbg (Agg (map grb_of tasks)) limit = ROk R ->
+  valid jobs sched -> work_conserving jobs sched -> fifo_policy jobs sched ->
+  respects_gcurves tasks jobs -> respects_cost_models tasks jobs ->
+  forall k, (k < length jobs)%nat -> completes_within jobs sched k (N.to_nat R).
+Proof. exact fifo_rta_sound_gen. Qed.
+Definition C03_workload_bounded_by_rbf_general_costs := gtotal_workload_bounded.
+Definition C03_general_costs_nonvacuous := gx_fifo_completes.
+Definition C03_general_costs_bound_attained := gx_fifo_tight.
+(* Multiframe [1;3]: cost_of_jobs charges the FIRST n frames; a job set costing 1,3 (the frames in order) violates
+   respects_cost_models (the second job alone costs 3 > cost_of_jobs 1 = 1) and exceeds the FIFO bound Ok 1 *)
+Definition C03_multiframe_needs_accumulatively_monotonic_frames := multiframe_first_frames_refuted.
